@@ -25,7 +25,7 @@ _BIN = {
     ast.FloorDiv: lambda a, b: a // b, ast.BitAnd: lambda a, b: a & b, ast.BitOr: lambda a, b: a | b, ast.LShift: lambda a, b: a << b,
     ast.RShift: lambda a, b: a >> b,
 }
-_STR_METHODS = ('startswith', 'endswith', 'find', 'strip', 'lower', 'upper', 'rindex', 'index', 'split', 'rfind', 'lstrip', 'rstrip', 'ljust', 'rjust', 'replace', 'isdigit', 'count', 'rsplit', 'partition', 'rpartition')
+_STR_METHODS = ('startswith', 'endswith', 'find', 'strip', 'lower', 'upper', 'rindex', 'index', 'split', 'rfind', 'lstrip', 'rstrip', 'ljust', 'rjust', 'replace', 'isdigit', 'count', 'rsplit', 'partition', 'rpartition', 'casefold', 'title', 'capitalize', 'zfill', 'isalpha', 'isalnum', 'isspace', 'removeprefix', 'removesuffix')
 
 
 def ev(node, env, hook=None):
